@@ -167,6 +167,11 @@ def run(res, rng, tier, model_ok, replay=None):
             if fst_walk_class(data) in ("hang", "bigseek"):
                 continue
             add(data, "random-bytes")
+        # a VCD whose first command, or whose leading blank space, is longer than any read buffer
+        for n in (4000, 8191, 8192, 8193, 9000, 70000):
+            add(b"$comment " + b"x" * n + b" $end\n$enddefinitions $end\n", "long-prefix-vcd", "vcd")
+            add(b"\n" * n + b"$date today $end\n$enddefinitions $end\n", "long-prefix-vcd", "vcd")
+            add(b" " * n + b"foo", "long-prefix-junk", "unknown")
         files = sorted(glob.glob("/repo/wellen/inputs/**/*", recursive=True))
         for f in files:
             ext = f.rsplit(".", 1)[-1]
